@@ -51,6 +51,8 @@ pub enum Kind {
     TssQnh,
     /// N*180/256
     TssHdg,
+    /// type code 1-4 shown as D, C, B, A
+    TcLetter,
     /// opaque bytes: only presence is judged
     Opaque,
 }
@@ -114,6 +116,7 @@ fn me_layout(bytes: &[u8], leaf: &mut String, fields: &mut Vec<FieldDef>, may_re
         }
         1..=4 => {
             leaf.push_str(&format!("/TC{tc}"));
+            fields.push(fk("me.ident.tc_letter", M + 1, 5, 8, Kind::TcLetter));
             fields.push(f("me.ident.ca", M + 6, 3, 8));
             fields.push(fk("me.ident.cn", M + 9, 48, 8, Kind::Callsign));
         }
@@ -548,6 +551,14 @@ pub fn interpret(kind: Kind, raw: u64) -> V {
         Kind::TssAlt => V::U(if raw > 1 { (raw - 1) * 32 } else { 0 }),
         Kind::TssQnh => V::F(if raw == 0 { 0.0 } else { 800.0 + (raw as f64 - 1.0) * 0.8 }),
         Kind::TssHdg => V::F(raw as f64 * 180.0 / 256.0),
+        Kind::TcLetter => V::S(match raw {
+            1 => "D",
+            2 => "C",
+            3 => "B",
+            4 => "A",
+            _ => "?",
+        }
+        .to_string()),
         Kind::Opaque => V::U(0),
     }
 }
